@@ -84,7 +84,7 @@ pub fn family(rng: &mut Rng, cfg: &GenCfg, which: usize) -> Option<Vec<Doc>> {
             c.p_long = 0;
             let mut budget = 4;
             let sk = crate::dom::gen_skel(rng, &c, "p", 1, &mut budget);
-            let n = *rng.pick(&[10usize, 20, 33, 50, 65, 129, 257]);
+            let n = *rng.pick(&[10usize, 20, 33, 50, 65, 129, 257, 1025]);
             let k = rng.range(1, 2);
             let mut docs = Vec::new();
             for _ in 0..k {
